@@ -98,6 +98,25 @@ def cases(rng, tier, stats):
         out.append(C.Case("truncations-and-mutations", lines, C.compare_status_class, total_oracle, info={"src": src[:400]}))
     stats["valid_programs"] = np_
     stats["mutants"] = nm
+    # every statement kind holding a deeply nested expression, cut after every token (nested open calls, groups, list
+    # and record literals, index chains at the end of input)
+    deep = [G.call("যোগ", G.call("দ্বিগুণ", G.num(2), G.lst(G.num(3), G.rec((G.s("k"), G.call("ফ", G.num(1)))))), G.idx(G.idx(G.var("ক"), G.num(0)), G.num(1))),
+            G.call("ক", G.call("খ", G.call("গ", G.num(1), G.num(2)), G.num(3)), G.num(4)),
+            G.bin_("+", G.grp(G.bin_("*", G.grp(G.un("-", G.call("ফ", G.grp(G.num(2))))), G.num(3))), G.call("ফ", G.lst(G.lst(G.call("গ", G.num(1)))))),
+            G.rec((G.s("a"), G.rec((G.s("b"), G.lst(G.call("ফ", G.call("গ", G.s("x"))))))), (G.s("c"), G.idx(G.var("ক"), G.call("ফ", G.num(0))))),
+            G.bin_("&", G.bin_("<", G.call("ফ", G.call("ফ", G.num(1))), G.num(2)), G.un("!", G.call("গ", G.call("গ", G.b(True)))))]
+    nt = 0
+    for e in deep:
+        kinds = [[("decl", "ফল", e)], [("assign", "ফল", [], e)], [("print", e)], [("printn", e)], [("expr", G.call("চ", e))],
+                 [("assign", "ফল", [G.num(0), G.s("k")], e)], [("if", [(e, [("print", G.num(1))])], None)],
+                 [("func", "কাজ", ["x"], [("return", e)])], [("loop", [("decl", "y", e), ("break",)])], [("assign", "ফল", [e], G.num(1))]]
+        for prog in kinds:
+            toks = [t for t in G.toks_stmts(prog) if t[1] != "nl"]
+            lines = ["PARSE " + C.hx(G.render(toks[:cut], "oneline")) for cut in range(0, len(toks) + 1)]
+            lines += ["PARSE " + C.hx(G.render(toks[:cut], "minimal")) for cut in range(1, len(toks), 3)]
+            nt += len(lines)
+            out.append(C.Case("deep-truncations", lines, C.compare_status_class, total_oracle, info={"src": G.render(toks, "oneline")[:300]}))
+    stats["deep_truncations"] = nt
     return out
 
 
